@@ -325,10 +325,13 @@ Section Oracle.
 End Oracle.
 
 (* ---------- the property predicate holds of the model (symbolic instance) ---------- *)
+Definition wf_step (v : verifier) (now0 now1 : Z) : Prop :=
+  (now0 <= now1)%Z /\ (zero_unix * ns <= now0 + v_offset v)%Z.
+
 Definition wf (i : input) : Prop :=
   match i with
-  | IIDToken v _ _ _ _ now0 now1 =>
-      (now0 <= now1)%Z /\ (zero_unix * ns <= now0 + v_offset v)%Z
+  | IIDToken v _ _ _ _ now0 now1 => wf_step v now0 now1
+  | IIDTokenSeq v _ steps => Forall (fun s => wf_step v (is_now0 s) (is_now1 s)) steps
   end.
 
 Lemma nonce_bool : forall v c, nonce_ok v c ->
@@ -443,9 +446,10 @@ Proof.
   - rewrite (hash_of_alg_spec _ _ Hh). unfold H_case in A. rewrite <- A. rewrite seqb_refl. apply orb_true_r.
 Qed.
 
-Theorem spec_model : forall i, wf i -> spec i (model i) = true.
+Lemma step_model : forall v ks t m atk now0 now1, wf_step v now0 now1 ->
+  spec_step v ks t m atk now0 now1 (model_step v ks t m atk now0) = true.
 Proof.
-  intros [v ks t m atk now0 now1] [Hle Hz].
+  intros v ks t m atk now0 now1 [Hle Hz].
   assert (Hacc : forall c alg, verify_id_token sym_verify v ks t m now0 = Accept c alg ->
             exists bytes, m = MidOk bytes c
               /\ claims_eqb c c && claims_sound v c now0 now1 && sig_genuine (v_algs v) ks t bytes
@@ -459,16 +463,16 @@ Proof.
             verify_id_token sym_verify v ks t m now0 = Accept c (sig_alg t)).
   { intros bytes c Hm B. apply andb_true_iff in B as [B1 B2]. subst m.
     apply id_token_complete; [now apply check_signature_complete | now apply (claims_margin_prop _ _ _ now1)]. }
-  destruct atk as [a|]; cbn [model].
+  destruct atk as [a|]; cbn [model_step].
   - (* rp.VerifyTokens *)
     destruct (verify_tokens sym_verify (H_case a) v ks t m (at_value a) now0) as [c alg|c alg e|e] eqn:T.
-    + apply tokens_sound in T as [A Hh]. destruct (Hacc _ _ A) as [bytes [Hm B]]. subst m. cbn [spec].
+    + apply tokens_sound in T as [A Hh]. destruct (Hacc _ _ A) as [bytes [Hm B]]. subst m. cbn [spec_step].
       rewrite B. cbn [andb]. now apply at_hash_ok_bool.
     + exfalso. unfold verify_tokens in T.
       destruct (verify_id_token sym_verify v ks t m now0) as [c0 a0|c0 a0 e0|e0] eqn:A; try discriminate.
       * destruct (chk_at_hash (H_case a) (at_value a) (c_at_hash c0) a0); discriminate.
       * now apply verify_id_token_no_expired_accept in A.
-    + destruct m as [| | | |bytes c]; cbn [spec]; try reflexivity.
+    + destruct m as [| | | |bytes c]; cbn [spec_step]; try reflexivity.
       apply negb_true_iff.
       destruct (claims_margin v c now0 now1 && sig_complete (v_algs v) ks t bytes
                 && at_hash_must_accept (Some a) c (sig_alg t)) eqn:B; [|reflexivity].
@@ -483,9 +487,9 @@ Proof.
       congruence.
   - (* rp.VerifyIDToken *)
     destruct (verify_id_token sym_verify v ks t m now0) as [c alg|c alg e|e] eqn:A.
-    + destruct (Hacc _ _ eq_refl) as [bytes [Hm B]]. subst m. cbn [spec]. rewrite B. reflexivity.
+    + destruct (Hacc _ _ eq_refl) as [bytes [Hm B]]. subst m. cbn [spec_step]. rewrite B. reflexivity.
     + exfalso. now apply verify_id_token_no_expired_accept in A.
-    + destruct m as [| | | |bytes c]; cbn [spec]; try reflexivity.
+    + destruct m as [| | | |bytes c]; cbn [spec_step]; try reflexivity.
       apply negb_true_iff.
       destruct (claims_margin v c now0 now1 && sig_complete (v_algs v) ks t bytes
                 && at_hash_must_accept None c (sig_alg t)) eqn:B; [|reflexivity].
@@ -493,10 +497,19 @@ Proof.
       pose proof (Hrej bytes c eq_refl B) as A2. congruence.
 Qed.
 
+Theorem spec_model : forall i, wf i -> spec i (model i) = true.
+Proof.
+  intros [v ks t m atk now0 now1|v ks steps] W; cbn [model spec].
+  - now apply step_model.
+  - cbn [wf] in W. induction W as [|s r Hs Hr IH]; cbn [map spec_seq]; [reflexivity|].
+    now rewrite (step_model _ _ _ _ _ _ _ Hs), IH.
+Qed.
+
+
 Example wf_nonvacuous :
   wf (IIDToken (mkVerifier "i" "c" 1000000000 0 0 None None []) (KSOpenID None) TMalformed MidSegments None
                1700000000000000000 1700000000000000100).
-Proof. cbn. unfold zero_unix, ns. lia. Qed.
+Proof. cbn. unfold wf_step, zero_unix, ns. cbn. lia. Qed.
 
 (* non-vacuity of C01_complete / C01_sound: a concrete accepted token *)
 Definition ex_v : verifier := mkVerifier "iss" "c" 1000000000 3600000000000 3600000000000 (Some "n") (Some ["gold"]) [].
